@@ -152,6 +152,49 @@ theorem findRef_refsOf (adds : Adds) (t : Nat) (ht : t < TMAX)
         rw [hnone, findRef_refsOf_before _ _ hall]
         simp
 
+/-! ### the session tree (in-order list) -/
+
+/-- in-order sequence of the rb-tree: by pid, then by start time -/
+def SessSorted (ss : List Sess) : Prop :=
+  ss.Pairwise (fun a b => a.pid < b.pid ∨ (a.pid = b.pid ∧ a.start ≤ b.start))
+
+theorem mem_insertSess (x y : Sess) (ss : List Sess) : y ∈ insertSess x ss ↔ y = x ∨ y ∈ ss := by
+  induction ss with
+  | nil => simp [insertSess]
+  | cons s r ih =>
+    simp only [insertSess]
+    split
+    · simp
+    · simp only [List.mem_cons, ih]
+      constructor
+      · rintro (h | h | h) <;> simp [h]
+      · rintro (h | h | h) <;> simp [h]
+
+theorem insertSess_sorted (x : Sess) (ss : List Sess) (h : SessSorted ss) :
+    SessSorted (insertSess x ss) := by
+  unfold SessSorted at *
+  induction ss with
+  | nil => simp [insertSess]
+  | cons s r ih =>
+    have hs := (List.pairwise_cons.mp h).1
+    have hr := (List.pairwise_cons.mp h).2
+    simp only [insertSess]
+    split
+    · rename_i haft
+      simp only [sessAfter, Bool.or_eq_true, decide_eq_true_eq, Bool.and_eq_true, beq_iff_eq] at haft
+      refine List.pairwise_cons.mpr ⟨?_, h⟩
+      intro a ha
+      rcases List.mem_cons.mp ha with e | e
+      · subst e; omega
+      · have := hs a e; omega
+    · rename_i haft
+      simp only [sessAfter, Bool.or_eq_true, decide_eq_true_eq, Bool.and_eq_true, beq_iff_eq] at haft
+      refine List.pairwise_cons.mpr ⟨?_, ih hr⟩
+      intro a ha
+      rcases (mem_insertSess x a r).mp ha with e | e
+      · subst e; omega
+      · exact hs a e
+
 /-! ### dlopen list -/
 
 theorem mem_addDlopen (libs : List DlLib) (x y : DlLib) :
